@@ -752,3 +752,10 @@ for _p, _ths in (('C19', ['FV.Tie.EventTime_MarshalBinaryTo_is_model', 'FV.Tie.E
     PROPS[_p]['explanation'] = PROPS[_p]['explanation'] + _SKT_TEXT
     if 'by translation' not in PROPS[_p]['technique']:
         PROPS[_p]['technique'] = PROPS[_p]['technique'] + '; the functions are additionally tied by translation (statements regenerated from the Go source on every run, proved to evaluate to the model)'
+PROPS['C20']['translator'] = True
+PROPS['C20']['lean_modules'] = PROPS['C20']['lean_modules'] + ['FluentVerif.Tie.Transport']
+PROPS['C20']['theorems'] = PROPS['C20']['theorems'] + ['FV.Tie.EntryList_Equal_is_model']
+PROPS['C20']['explanation'] = PROPS['C20']['explanation'] + (" Regenerated tie: the body of EntryList.Equal is re-read on every run, each statement recognised by its exact source text "
+    "(length test, the two copies, the counter, the used marks, the nested loops with continue / mark / count / break, the final comparison; anything else `.unknown`), "
+    "and EntryList_Equal_is_model proves that evaluating the regenerated statements is the model's `equal` (C20_iff: list permutation).")
+PROPS['C20']['technique'] = PROPS['C20']['technique'] + '; Equal is additionally tied by translation (statements regenerated from the Go source on every run, proved to evaluate to the model)'
